@@ -964,6 +964,136 @@ enum Cmd {
     Handle(u64, list::Entry<Tracked>),
 }
 
+/// The protocol TimeOutList builds on the head report: the consumer sleeps once it has seen the list empty and is
+/// only woken by a push that reports `is_head`. Producers raise a token for every head report; the consumer drains
+/// (pop until None) only after a token. Exact oracle, no timing: when every push has returned, every token has been
+/// served and entries are still in the list, a push onto the drained list reported `is_head == false` (a stranded
+/// timer in the runtime). Also FIFO per producer and exactly-once.
+fn listproto_exec(producers: usize, per: usize, r: &mut Rng, miri: bool) -> Result<ExecOut, String> {
+    let total = producers * per;
+    let reg: Arc<Vec<AtomicU32>> = Arc::new((0..total).map(|_| AtomicU32::new(0)).collect());
+    let q = Arc::new(list::Queue::<Tracked>::new());
+    let tokens = Arc::new(AtomicUsize::new(0));
+    let bar = Arc::new(Barrier::new(producers + 1));
+    let done = Arc::new(AtomicUsize::new(0));
+    let mut hs = vec![];
+    for p in 0..producers {
+        let (q, reg, bar, done, tokens) = (q.clone(), reg.clone(), bar.clone(), done.clone(), tokens.clone());
+        let mut pr = Rng::new(r.next());
+        hs.push(std::thread::spawn(move || {
+            set_role(1 + p as u32);
+            let mut ops = Vec::new();
+            let mut keep = Vec::new();
+            bar.wait();
+            for i in 0..per {
+                let v = (p * per + i) as u64;
+                let c = stamp();
+                let (h, is_head) = q.push(Tracked::new(v, &reg));
+                if is_head {
+                    tokens.fetch_add(1, SeqCst);
+                }
+                let rr = stamp();
+                ops.push(Op { thread: 1 + p as u32, k: OpK::PushL(v, is_head), c, r: rr });
+                keep.push(h);
+                // let the consumer drain and go idle every now and then: pushes onto an empty list are the point
+                if pr.chance(1, 3) {
+                    for _ in 0..pr.below(if miri { 3 } else { 200 }) {
+                        std::hint::spin_loop();
+                    }
+                    if pr.chance(1, 6) {
+                        std::thread::yield_now();
+                    }
+                }
+            }
+            done.fetch_add(1, SeqCst);
+            (ops, keep)
+        }));
+    }
+    set_role(0);
+    bar.wait();
+    let mut cops: Vec<Op> = Vec::new();
+    let mut consumed = 0usize;
+    let mut drains = 0usize;
+    loop {
+        let all = done.load(SeqCst) == producers;
+        if tokens.swap(0, SeqCst) > 0 {
+            drains += 1;
+            loop {
+                let c = stamp();
+                let got = q.pop().map(|t| t.value());
+                let none = got.is_none();
+                consumed += got.is_some() as usize;
+                cops.push(Op { thread: 0, k: OpK::Pop(got.into_iter().collect(), false), c, r: stamp() });
+                if none {
+                    break;
+                }
+            }
+        } else if all {
+            // `done` was read before the token check: every push has returned and raised its token by now
+            break;
+        } else if miri {
+            std::thread::yield_now();
+        } else {
+            std::hint::spin_loop();
+        }
+    }
+    let mut ops: Vec<Op> = Vec::new();
+    let mut keep_all = Vec::new();
+    for h in hs {
+        let (o, k) = h.join().map_err(|_| "producer panicked".to_string())?;
+        ops.extend(o);
+        keep_all.push(k);
+    }
+    if consumed != total {
+        // what is left, and which push should have announced it
+        let mut left = vec![];
+        while let Some(t) = q.pop() {
+            left.push(t.value());
+        }
+        let first = left.first().copied();
+        let rep = first.and_then(|f| ops.iter().find_map(|o| if let OpK::PushL(v, h) = o.k { if v == f { Some((o.c, o.r, h)) } else { None } } else { None }));
+        return Err(format!(
+            "head-report protocol: all {} pushes returned and every token was served ({} drains), yet {} entries are still in the list: {:?}; the consumer had drained the list before entry {:?} was pushed at {:?} (call,ret,is_head) and no later push reported a head: a stranded timer",
+            total,
+            drains,
+            left.len(),
+            &left[..left.len().min(8)],
+            first,
+            rep
+        ));
+    }
+    // FIFO per producer, exactly once
+    let mut last: HashMap<usize, u64> = HashMap::new();
+    let mut seen: HashSet<u64> = HashSet::new();
+    for o in &cops {
+        if let OpK::Pop(vs, _) = &o.k {
+            for &v in vs {
+                if !seen.insert(v) {
+                    return Err(format!("entry {} popped twice", v));
+                }
+                let p = v as usize / per;
+                if let Some(&l) = last.get(&p) {
+                    if v <= l {
+                        return Err(format!("entries of producer {} popped out of order: {} after {}", p, v, l));
+                    }
+                }
+                last.insert(p, v);
+            }
+        }
+    }
+    drop(keep_all);
+    drop(q);
+    for v in 0..total {
+        let d = reg[v].load(SeqCst);
+        if d != 1 {
+            return Err(format!("drop: entry {} dropped {} times", v, d));
+        }
+    }
+    ops.extend(cops);
+    let (sig, _) = history_sig(&ops);
+    Ok(ExecOut { ops, overlap: drains > 1, sig, desc: format!("head-report protocol producers={} per={} drains={}", producers, per, drains) })
+}
+
 /// concurrent producers vs the single consumer. Handles travel to the consumer over a std
 /// channel (documented contract: handles are only touched on the consumer side).
 fn list_exec(producers: usize, per: usize, r: &mut Rng, miri: bool) -> Result<ExecOut, String> {
@@ -1300,7 +1430,7 @@ fn sites_for(kind: &str) -> Vec<u32> {
 fn main() {
     let args: Vec<String> = std::env::args().collect();
     if args.len() < 2 {
-        eprintln!("usage: q <mpsc|spsc|spmc|list|listseq|selftest> [--seed S] [--execs N] [--thorough] [--miri] [--budget-s T]");
+        eprintln!("usage: q <mpsc|spsc|spmc|spmcq|list|listseq|listproto|selftest> [--seed S] [--execs N] [--thorough] [--miri] [--budget-s T]");
         std::process::exit(2);
     }
     let kind = args[1].clone();
@@ -1399,6 +1529,11 @@ fn main() {
                 list_exec(producers, per, &mut r, miri)
             }
             "listseq" => listseq_exec(&mut r),
+            "listproto" => {
+                let producers = 1 + r.below(if miri { 2 } else { 3 }) as usize;
+                let per = (if miri { 10 } else { 300 } + r.below(if miri { 30 } else { 700 * scale as u64 })) as usize;
+                listproto_exec(producers, per, &mut r, miri)
+            }
             _ => {
                 eprintln!("unknown kind");
                 std::process::exit(2);
